@@ -404,3 +404,17 @@ def run(ctx):
     # only absorbs a remainder of rounding-error size, also far from the origin of time (last-steps model of C12)
     from . import integrate_kit as _ik
     ctx.guard(_ik.rule_last_steps, "R13.7", False)
+
+
+_run_before_r13_8 = run
+
+
+def run(ctx):
+    _run_before_r13_8(ctx)
+    # whole solves with the real steps, as canonical forms (solver_replay.py)
+    from . import solver_replay
+    ctx.guard(solver_replay.r13_8)
+
+
+EXPLANATION = EXPLANATION + " " + (
+    "R13.8 (solver_replay.py, see C12): a solve over [0, 3/8] at once, in two chunks and one step per chunk, each chunk restarted from the returned final state and the returned extra solver state, for every distinct step scenario; the states at the chunk boundaries and the final extra state must be the one-shot solve's canonical forms.")
